@@ -583,14 +583,22 @@ func parsePaths(result *Policy, list *ast.ObjectList, performTemplating bool, bl
 		if pc.AllowedParametersHCL != nil {
 			pc.Permissions.AllowedParameters = make(map[string][]any, len(pc.AllowedParametersHCL))
 			for k, v := range pc.AllowedParametersHCL {
-				pc.Permissions.AllowedParameters[strings.ToLower(k)] = v
+				lk := strings.ToLower(k)
+				if _, dup := pc.Permissions.AllowedParameters[lk]; dup {
+					return fmt.Errorf("path %q: allowed_parameters names %q more than once (parameter names are case-insensitive)", key, lk)
+				}
+				pc.Permissions.AllowedParameters[lk] = v
 			}
 		}
 		if pc.DeniedParametersHCL != nil {
 			pc.Permissions.DeniedParameters = make(map[string][]any, len(pc.DeniedParametersHCL))
 
 			for k, v := range pc.DeniedParametersHCL {
-				pc.Permissions.DeniedParameters[strings.ToLower(k)] = v
+				lk := strings.ToLower(k)
+				if _, dup := pc.Permissions.DeniedParameters[lk]; dup {
+					return fmt.Errorf("path %q: denied_parameters names %q more than once (parameter names are case-insensitive)", key, lk)
+				}
+				pc.Permissions.DeniedParameters[lk] = v
 			}
 		}
 		if pc.MinWrappingTTLHCL != nil {
